@@ -317,6 +317,7 @@ where
     Offset: gimli::ReaderOffset,
 {
     let mut lines = vec![];
+    let mut sequence_start = 0;
     while let Some((_, line_row)) = rows.next_row()? {
         let column = match line_row.column() {
             gimli::ColumnType::LeftEdge => 0,
@@ -343,7 +344,16 @@ where
             line: line_row.line().map(NonZeroU64::get).unwrap_or(0),
             column,
             flags,
-        })
+        });
+
+        if line_row.end_sequence() {
+            // the sequence of a function discarded by the linker is relocated to address
+            // zero: there is no code behind these rows, they must not answer any lookup
+            if lines[sequence_start].address == 0 {
+                lines.truncate(sequence_start);
+            }
+            sequence_start = lines.len();
+        }
     }
 
     lines.shrink_to_fit();
